@@ -38,6 +38,10 @@ type branchMatcher struct {
 	charClass    [256]bool
 	minMatch     int
 	hasCharClass bool
+
+	// For fixed-length concatenations of ASCII literals and single classes like
+	// ba[rz] (what the parser makes of bar|baz): one byte set per position.
+	seq []*[256]bool
 }
 
 // NewBranchDispatcher creates a dispatcher for an anchored alternation.
@@ -105,6 +109,11 @@ func NewBranchDispatcher(re *syntax.Regexp) *BranchDispatcher {
 			return nil // literal matchers compare raw bytes
 		}
 		branchMatchers[i] = buildBranchMatcher(branch)
+		if len(branchMatchers[i].literal) == 0 && !branchMatchers[i].hasCharClass && len(branchMatchers[i].seq) == 0 {
+			// No exact matcher for this branch shape (concatenation, counted
+			// repetition, non-ASCII or lazy class, ...): leave it to the general engines.
+			return nil
+		}
 	}
 
 	return &BranchDispatcher{
@@ -152,27 +161,17 @@ func buildBranchMatcher(re *syntax.Regexp) branchMatcher {
 		// Literal like "UUID"
 		m.literal = make([]byte, len(re.Rune))
 		for i, r := range re.Rune {
-			if r > 255 {
-				return m // Non-ASCII, can't optimize
+			if r > 0x7F {
+				return branchMatcher{} // non-ASCII: multi-byte in UTF-8
 			}
 			m.literal[i] = byte(r)
 		}
 
 	case syntax.OpPlus:
-		// char_class+ like \d+
-		if len(re.Sub) == 1 && re.Sub[0].Op == syntax.OpCharClass {
-			cc := re.Sub[0]
-			for i := 0; i < len(cc.Rune); i += 2 {
-				lo, hi := cc.Rune[i], cc.Rune[i+1]
-				if hi > 255 {
-					hi = 255
-				}
-				if lo > 255 {
-					continue
-				}
-				for r := lo; r <= hi; r++ {
-					m.charClass[byte(r)] = true
-				}
+		// char_class+ like \d+ (greedy: the matcher consumes the whole run)
+		if len(re.Sub) == 1 && re.Sub[0].Op == syntax.OpCharClass && re.Flags&syntax.NonGreedy == 0 {
+			if !fillASCIIClass(&m.charClass, re.Sub[0]) {
+				return branchMatcher{}
 			}
 			m.hasCharClass = true
 			m.minMatch = 1
@@ -180,39 +179,69 @@ func buildBranchMatcher(re *syntax.Regexp) branchMatcher {
 
 	case syntax.OpStar:
 		// char_class* like \d*
-		if len(re.Sub) == 1 && re.Sub[0].Op == syntax.OpCharClass {
-			cc := re.Sub[0]
-			for i := 0; i < len(cc.Rune); i += 2 {
-				lo, hi := cc.Rune[i], cc.Rune[i+1]
-				if hi > 255 {
-					hi = 255
-				}
-				if lo > 255 {
-					continue
-				}
-				for r := lo; r <= hi; r++ {
-					m.charClass[byte(r)] = true
-				}
+		if len(re.Sub) == 1 && re.Sub[0].Op == syntax.OpCharClass && re.Flags&syntax.NonGreedy == 0 {
+			if !fillASCIIClass(&m.charClass, re.Sub[0]) {
+				return branchMatcher{}
 			}
 			m.hasCharClass = true
 			m.minMatch = 0
 		}
 
 	case syntax.OpConcat:
-		// Concatenation - check if starts with literal
-		if len(re.Sub) > 0 && re.Sub[0].Op == syntax.OpLiteral {
-			lit := re.Sub[0]
-			m.literal = make([]byte, len(lit.Rune))
-			for i, r := range lit.Rune {
-				if r > 255 {
-					return branchMatcher{} // Non-ASCII
+		// literal / single class steps only: fixed length, no backtracking needed
+		for _, sub := range re.Sub {
+			switch {
+			case sub.Op == syntax.OpLiteral && sub.Flags&syntax.FoldCase == 0:
+				for _, r := range sub.Rune {
+					if r > 0x7F {
+						return branchMatcher{}
+					}
+					var t [256]bool
+					t[byte(r)] = true
+					m.seq = append(m.seq, &t)
 				}
-				m.literal[i] = byte(r)
+			case sub.Op == syntax.OpCharClass:
+				var t [256]bool
+				if !fillASCIIClass(&t, sub) {
+					return branchMatcher{}
+				}
+				m.seq = append(m.seq, &t)
+			default:
+				return branchMatcher{}
 			}
 		}
 	}
 
 	return m
+}
+
+// matchSeq reports whether haystack starts with the fixed-length sequence.
+func (m *branchMatcher) matchSeq(haystack []byte) bool {
+	if len(haystack) < len(m.seq) {
+		return false
+	}
+	for i, t := range m.seq {
+		if !t[haystack[i]] {
+			return false
+		}
+	}
+	return true
+}
+
+// fillASCIIClass sets the table for an ASCII-only character class. It reports
+// false for a class with non-ASCII members: those are multi-byte in UTF-8 and
+// cannot be matched by a per-byte table.
+func fillASCIIClass(table *[256]bool, cc *syntax.Regexp) bool {
+	for i := 0; i+1 < len(cc.Rune); i += 2 {
+		lo, hi := cc.Rune[i], cc.Rune[i+1]
+		if hi > 0x7F {
+			return false
+		}
+		for r := lo; r <= hi; r++ {
+			table[byte(r)] = true
+		}
+	}
+	return true
 }
 
 // IsMatch returns true if the haystack matches the pattern.
@@ -256,9 +285,7 @@ func (d *BranchDispatcher) IsMatch(haystack []byte) bool {
 		return count >= m.minMatch
 	}
 
-	// Fallback: we know first byte matched, assume true for simple cases
-	// This is conservative - may return true for partial matches
-	return true
+	return m.matchSeq(haystack)
 }
 
 // Search finds the first match starting at position 0.
@@ -308,8 +335,10 @@ func (d *BranchDispatcher) Search(haystack []byte) (int, int, bool) {
 		return -1, -1, false
 	}
 
-	// Fallback: return position 0 with length 1 (conservative)
-	return 0, 1, true
+	if m.matchSeq(haystack) {
+		return 0, len(m.seq), true
+	}
+	return -1, -1, false
 }
 
 // IsBranchDispatchPattern checks if pattern is suitable for branch dispatch.
